@@ -342,6 +342,7 @@ func c11(c *core.Ctx, r *core.Report) {
 		r.Fail("infra.anchor-unresolved", "R11.queries|addInstructionQuery", "", "not found")
 	}
 	c11runtime(c, r)
+	c11oneobject(c, r)
 	// ---- R11.underlying
 	underlyingRule(c, r, "R11.underlying", func(t core.TypeTest) bool {
 		if t.PkgRel != "internal/pointer" {
